@@ -517,16 +517,27 @@ func genSMTP(r *Rng) []unit {
 	return us
 }
 
-func genHTTP(r *Rng) []unit {
+// genHTTPChunked: every request with a body is chunked (sizes in lower or upper case hex, some with extensions)
+func genHTTPChunked(r *Rng) []unit { return genHTTPx(r, true) }
+
+func genHTTP(r *Rng) []unit { return genHTTPx(r, false) }
+
+func genHTTPx(r *Rng, forceChunked bool) []unit {
 	var us []unit
 	n := r.Range(1, 4)
 	for i := 0; i < n; i++ {
 		method := []string{"GET", "POST", "PUT", "HEAD", "DELETE", "OPTIONS", "PATCH"}[r.Intn(7)]
+		if forceChunked && i == 0 {
+			method = "POST"
+		}
 		target := "/" + word(r, 12)
 		if r.Intn(3) == 0 {
 			target += "?q=" + word(r, 8) + "&x=1"
 		}
 		proto := []string{"HTTP/1.1", "HTTP/1.1", "HTTP/1.0"}[r.Intn(3)]
+		if forceChunked {
+			proto = "HTTP/1.1"
+		}
 		host := word(r, 10) + ".example"
 		hdr := map[string][]string{}
 		var lines []string
@@ -546,13 +557,23 @@ func genHTTP(r *Rng) []unit {
 		wire := ""
 		if method == "POST" || method == "PUT" || method == "PATCH" {
 			body = r.Bytes([]int{0, 1, 10, 500, 1023, 1024, 1025, 3000}[r.Intn(8)])
-			if r.Intn(4) == 0 && proto == "HTTP/1.1" {
+			if (forceChunked || r.Intn(4) == 0) && proto == "HTTP/1.1" {
 				// chunked (HTTP/1.1 only: a 1.0 request cannot be chunked)
-				lines = append(lines, "Transfer-Encoding: chunked")
+				lines = append(lines, []string{"Transfer-Encoding: chunked", "transfer-encoding: Chunked"}[r.Intn(2)])
 				pos := 0
 				for pos < len(body) {
 					k := r.Range(1, len(body)-pos)
-					wire += fmt.Sprintf("%x\r\n", k) + string(body[pos:pos+k]) + "\r\n"
+					if r.Intn(3) == 0 && k > 20 {
+						k = r.Range(1, 20)
+					}
+					size := fmt.Sprintf("%x", k)
+					if r.Bool() {
+						size = strings.ToUpper(size)
+					}
+					if r.Intn(5) == 0 {
+						size += ";ext=" + word(r, 4)
+					}
+					wire += size + "\r\n" + string(body[pos:pos+k]) + "\r\n"
 					pos += k
 				}
 				wire += "0\r\n\r\n"
@@ -824,7 +845,7 @@ func init() {
 				segs = append(segs, unhx(h))
 			}
 			runReqX("ldap", segs, nil, false)
-		} else if len(f) >= 3 && (f[0] == "seg" || f[0] == "@seg" || f[0] == "@lock") {
+		} else if len(f) >= 3 && (f[0] == "seg" || f[0] == "segc" || f[0] == "@seg" || f[0] == "@lock") {
 			var segs [][]byte
 			for _, h := range f[2:] {
 				segs = append(segs, unhx(h))
@@ -847,7 +868,7 @@ func genC04(tier string, seed uint64) {
 	gens := []struct {
 		svc string
 		gen func(*Rng) []unit
-	}{{"ftp", genFTP}, {"telnet", genTelnet}, {"memcached", genMemcached}, {"redis", genRedis}, {"smtp", genSMTP}, {"http", genHTTP}}
+	}{{"ftp", genFTP}, {"telnet", genTelnet}, {"memcached", genMemcached}, {"redis", genRedis}, {"smtp", genSMTP}, {"http", genHTTP}, {"http", genHTTPChunked}}
 	nDial, maxSingle, nMulti := 6, 160, 12
 	if tier == "thorough" {
 		nDial, maxSingle, nMulti = 40, 600, 60
@@ -858,8 +879,8 @@ func genC04(tier string, seed uint64) {
 			us := g.gen(r)
 			b, ex := dialogue(us)
 			seg := "seg"
-			if g.svc == "http" && bytes.Contains(b, []byte("Transfer-Encoding")) {
-				seg = "@seg" // chunked bodies are outside the model's framing: oracle only
+			if g.svc == "http" && bytes.Contains(bytes.ToLower(b), []byte("transfer-encoding")) {
+				seg = "segc" // chunked bodies: the machine of HT.Relay.httpSvcC
 			}
 			// in one piece; at every unit boundary (one write per command, pipelined and lock-step)
 			runSeg(seg, g.svc, [][]byte{b}, ex, true)
@@ -899,7 +920,11 @@ func genC04(tier string, seed uint64) {
 			// the stream cut short (client goes away mid-command): events of the complete commands only
 			if len(b) > 2 {
 				k := r.Intn(len(b))
-				runSeg(seg, g.svc, cutAt(b[:k], []int{r.Intn(k + 1)}), nil, false)
+				short := seg
+				if seg == "segc" {
+					short = "@seg" // a stream that ends inside a chunked body: oracle only
+				}
+				runSeg(short, g.svc, cutAt(b[:k], []int{r.Intn(k + 1)}), nil, false)
 			}
 		}
 	}
